@@ -420,7 +420,23 @@ async fn scenario(a: &ShardArgs, idx: u64) {
             let mut verdict = Verdict::Accept;
             let mut label = "faithful".to_string();
             if noise {
-                match r.below(9) {
+                match r.below(10) {
+                    9 => {
+                        // an unsolicited response that is not a single fragment (FIR and FIN both required): never
+                        // delivered, never confirmed; whether the outstanding request survives it is left open
+                        func = ra::F_UNSOL_RESPONSE;
+                        let flags = *r.pick(&[ra::FIR, ra::FIN, 0]);
+                        ctrl = flags | ra::UNS | if r.chance(3, 4) { ra::CON } else { 0 } | r.below(16) as u8;
+                        body = if r.bool() {
+                            vec![]
+                        } else {
+                            ra::B { bytes: vec![] }
+                                .prefixed8(32, 1, &[(3, vec![1, 42, 0, 0, 0])])
+                                .bytes
+                        };
+                        verdict = Verdict::Ignore;
+                        label = format!("unsolicited-misflagged-{flags:02x}");
+                    }
                     0 => {
                         ctrl = (good_ctrl & 0xF0) | ((cur_seq + r.range(1, 15) as u8) & 15);
                         verdict = Verdict::Ignore;
@@ -545,12 +561,22 @@ async fn scenario(a: &ShardArgs, idx: u64) {
                 // unsolicited: quiet association has no start-up integrity -> accepted; from a known association only
                 let known = src == OUT || src == 1025;
                 let dup = last_unsol.as_deref() == Some(frag.as_slice());
-                let want_confirm = con && known;
+                let misflagged = label.starts_with("unsolicited-misflagged");
+                let want_confirm = con && known && !misflagged;
                 if want_confirm != confirms.contains(&(frag[0] & 0x0F, true)) || confirms.len() > 1
                 {
                     viol("unsolicited_confirm", &format!("{}|dup{}", if want_confirm { "missing" } else { "unexpected" }, dup as u8), format!("unsolicited response (CON={con}, source {src}) answered with confirms {confirms:?}"), &hist);
                 } else if want_confirm {
                     out::count("unsolicited_confirmed_ok", 1);
+                }
+                if misflagged {
+                    out::count("misflagged_unsolicited_sent", 1);
+                    if sim.result_of(id).is_some() {
+                        // the library fails the outstanding request on it: the stream ends here
+                        outcome_expected = Some(false);
+                        break 'stream;
+                    }
+                    continue;
                 }
                 if known && src == OUT {
                     let n = ra::decode_response_measurements(&frag[4..])
